@@ -2,6 +2,8 @@
 // Reference-encoded requests from scripted peers into a libcoap server with a generated resource table;
 // oracle = executable decision table (set of admissible outcomes) + handler log.
 #include "../sim/helpers.h"
+#include <algorithm>
+#include <cstring>
 #include "../ref/refuri.h"
 using namespace verif;
 using namespace sim;
@@ -321,6 +323,9 @@ int verif_case(const uint8_t *tape, size_t tlen, Info *info) {
 
   int verdict = HELD;
   unsigned nreq = (unsigned)t.pick({3, 3, 2, 1}) + 1;
+  std::vector<uint8_t> rev(tape, tape + tlen);
+  std::reverse(rev.begin(), rev.end());
+  Tape tb(rev.data(), rev.size());
   for (unsigned qi = 0; qi < nreq && verdict == HELD; qi++) {
     Request rq;
     ref::Msg &m = rq.m;
@@ -347,6 +352,21 @@ int verif_case(const uint8_t *tape, size_t tlen, Info *info) {
       }
       std::vector<ref::Opt> opts;
       for (auto &sg : rq.path_segs) opts.push_back(ref::Opt{11, std::vector<uint8_t>(sg.begin(), sg.end())});
+      // further Uri-Query options in front (read from the END of the tape so that earlier tapes keep their meaning): empty arguments in
+      // any position, single characters, bytes that need percent-encoding.  Not for /.well-known/core, whose built-in handler interprets
+      // the query as a filter (C20's subject)
+      if (!(rq.path_segs.size() == 2 && rq.path_segs[0] == ".well-known") && tb.chance(72)) {
+        unsigned nq = tb.range(1, 3);
+        for (unsigned k = 0; k < nq; k++) {
+          switch (tb.pick({3, 2, 2, 3})) {
+          case 0: opts.push_back(ref::Opt{15, {}}); break;
+          case 1: opts.push_back(ref::Opt{15, {'k'}}); break;
+          case 2: opts.push_back(ref::Opt{15, {'x', '=', '1'}}); break;
+          default: opts.push_back(ref::Opt{15, tb.vec(tb.range(1, 3))}); break;
+          }
+        }
+        info->label("extra-uri-query-options");
+      }
       if (t.chance(48)) opts.push_back(ref::Opt{15, {'a', '=', '1'}});
       if (t.chance(24)) opts.push_back(ref::Opt{15, {'b', '&', '%'}});
       if (t.chance(20)) opts.push_back(ref::Opt{t.choose((const uint32_t[]){65001, 65003, 2049, 65005}), t.vec(t.range(0, 3))});  // critical (65003/… unsafe too)
@@ -524,7 +544,18 @@ int verif_case(const uint8_t *tape, size_t tlen, Info *info) {
         if (!(inv.opts == want)) { info->fail("request %u: handler saw a different option list (%zu vs %zu options)", qi, inv.opts.size(), want.size()); verdict = VIOLATION; break; }
       }
       std::string wq;
-      { bool first = true; for (auto &o : m.opts) if (o.num == 15) { if (!first) wq += "&"; first = false; for (unsigned char c : o.val) { if (c == '&' || c == '%') { char b[4]; snprintf(b, sizeof b, "%%%02X", c); wq += b; } else wq += (char)c; } } }
+      // RFC 7252 6.5 step 7: arguments joined by '&'; inside one, everything outside unreserved / sub-delims without '&' / ':' '@' '/' '?' is percent-encoded
+      {
+        bool first = true;
+        for (auto &o : m.opts) if (o.num == 15) {
+          if (!first) wq += "&";
+          first = false;
+          for (unsigned char c : o.val) {
+            bool plain = (c >= 'A' && c <= 'Z') || (c >= 'a' && c <= 'z') || (c >= '0' && c <= '9') || (c != 0 && strchr("-._~!$'()*+,;=:@/?", c));
+            if (!plain) { char b[4]; snprintf(b, sizeof b, "%%%02X", c); wq += b; } else wq += (char)c;
+          }
+        }
+      }
       if (inv.query != wq) { info->fail("request %u: handler saw query '%s', sent '%s'", qi, inv.query.c_str(), wq.c_str()); verdict = VIOLATION; break; }
       if (inv.res >= 0 && inv.path != cs.res[inv.res].path) { info->fail("request %u: handler saw path '%s', resource is '%s'", qi, inv.path.c_str(), cs.res[inv.res].path.c_str()); verdict = VIOLATION; break; }
       // what the handler set is what is sent
